@@ -39,7 +39,8 @@ LEVEL_TEXT = ('exploration: ~7*10^4 (quick) / ~9*10^5 (thorough) history steps o
               'clone-vs-mp equivalence probes over ~185 functions')
 LEVEL_NOTE = 'trusted base: vf/exactq.py for the probe; histories not generated are not covered; thread-level interleaving is out of scope (single-threaded target)'
 TECHNIQUE = 'runtime monitoring: state-invariant monitor over interleaved multi-context histories + API-boundary wrappers + differential (clone vs mp) raw-result comparison'
-SHARD_TIMEOUT = {'quick': 600, 'thorough': 3000}
+SHARD_TIMEOUT = {'quick': 900, 'thorough': 3300}
+WALL_SAFETY = {'quick': 600.0, 'thorough': 2500.0}   # no new history/probe after this wall time: the worker must report before the watchdog
 
 N_SHARDS = 16
 HISTORIES = {'quick': 110, 'thorough': 1400}          # per shard
@@ -851,10 +852,11 @@ def capped(rec):
 def _run(shard, rec, tier, r, t0, anchors, mpmath):
     from vf.instrument import AnchorCount
     skipped = 0
+    w0 = time.time()
     with AnchorCount(rec, anchors):
         nh = HISTORIES[tier]
         for h in range(nh):
-            if time.process_time() - t0 > CPU_LIMIT[tier] * 0.6:
+            if time.process_time() - t0 > CPU_LIMIT[tier] * 0.6 or time.time() - w0 > WALL_SAFETY[tier] * 0.6:
                 skipped += nh - h
                 break
             w = World(mpmath, rec, r)
@@ -872,7 +874,7 @@ def _run(shard, rec, tier, r, t0, anchors, mpmath):
             allf = CATALOG_FUNCS + SPECIAL_FUNCS
             ne = EQUIV[tier]
             for i in range(ne):
-                if time.process_time() - t0 > CPU_LIMIT[tier]:
+                if time.process_time() - t0 > CPU_LIMIT[tier] or time.time() - w0 > WALL_SAFETY[tier]:
                     skipped += ne - i
                     break
                 forced = allf[(i + shard['shard'] * 13) % len(allf)] if i < len(allf) else None
